@@ -46,15 +46,15 @@ static inline void *rp_fresh(size_t n) { void *p = malloc(n ? n : 1); memset(p, 
 
 /* every produced byte equals the spec byte (positions 0..8, unrolled) */
 #define ENSURES_BYTES(z, n, BYTE, x)                                  \
-    __CPROVER_ensures((n) < 1 || (z)[0] == BYTE((x), 0))              \
-    __CPROVER_ensures((n) < 2 || (z)[1] == BYTE((x), 1))              \
-    __CPROVER_ensures((n) < 3 || (z)[2] == BYTE((x), 2))              \
-    __CPROVER_ensures((n) < 4 || (z)[3] == BYTE((x), 3))              \
-    __CPROVER_ensures((n) < 5 || (z)[4] == BYTE((x), 4))              \
-    __CPROVER_ensures((n) < 6 || (z)[5] == BYTE((x), 5))              \
-    __CPROVER_ensures((n) < 7 || (z)[6] == BYTE((x), 6))              \
-    __CPROVER_ensures((n) < 8 || (z)[7] == BYTE((x), 7))              \
-    __CPROVER_ensures((n) < 9 || (z)[8] == BYTE((x), 8))
+    __CPROVER_ensures((n) < 1 || ((const uint8_t *)(z))[0] == BYTE((x), 0))              \
+    __CPROVER_ensures((n) < 2 || ((const uint8_t *)(z))[1] == BYTE((x), 1))              \
+    __CPROVER_ensures((n) < 3 || ((const uint8_t *)(z))[2] == BYTE((x), 2))              \
+    __CPROVER_ensures((n) < 4 || ((const uint8_t *)(z))[3] == BYTE((x), 3))              \
+    __CPROVER_ensures((n) < 5 || ((const uint8_t *)(z))[4] == BYTE((x), 4))              \
+    __CPROVER_ensures((n) < 6 || ((const uint8_t *)(z))[5] == BYTE((x), 5))              \
+    __CPROVER_ensures((n) < 7 || ((const uint8_t *)(z))[6] == BYTE((x), 6))              \
+    __CPROVER_ensures((n) < 8 || ((const uint8_t *)(z))[7] == BYTE((x), 7))              \
+    __CPROVER_ensures((n) < 9 || ((const uint8_t *)(z))[8] == BYTE((x), 8))
 
 /* the input object is exactly the n spec bytes of the ghost value v */
 #define REQUIRES_BYTES(z, n, BYTE, v)                                 \
@@ -93,6 +93,7 @@ static inline void *rp_fresh(size_t n) { void *p = malloc(n ? n : 1); memset(p, 
     ENSURES_BYTES(z, RET, BYTE, x)
 #define DOM_ANY(x) 1
 #define DOM_NONZERO(x) ((x) != 0)
+#define DOM_NONNEG_U(x) ((x) <= (uint64_t)INT64_MAX)
 
 #ifndef VERIF_NATIVE
 #define C_PUT(fn, RT, ZT, T, LEN, BYTE, LO, HI, DOM) RT fn(ZT *z, T x) P_PUT_CLAUSES(LEN, BYTE, LO, HI, DOM);
